@@ -1,4 +1,5 @@
 import Fuota.Lemmas.RingFlashSim
+import Fuota.Lemmas.RingFlashRunCalls
 import Fuota.Props.C08
 import Fuota.Props.C12
 import Fuota.Props.C13
@@ -652,6 +653,191 @@ example (k : Nat) (hk : k ≤ 18) :
     rw [blank_hdrs]; rfl
   · show k ≤ (Ops.startOps 4096 20480 4 18 0 1 0 1).length
     rw [show (Ops.startOps 4096 20480 4 18 0 1 0 1).length = 18 by decide]; exact hk
+
+
+
+open Fuota.RingRun
+
+
+
+
+/-! ## `try_recover` and `check_and_mark_done` at the level of the device monad -/
+
+/-- **`tryRecover_runs`**: on a good device (alive, nothing armed) `try_recover` leaves the flash that results from
+    exactly `recoverOps`, followed — only when a pair was remediated and `try_recover_inner` then gives up on the
+    tables it reads (`l > maxL`; impossible for the tables a session writes, possible for arbitrary slot contents) —
+    by the cancel-all programs of the remediated arrangement; with a power loss armed before operation `k`
+    (`Dev.withCrash k`) the flash is the one after the first `k` of these operations. -/
+theorem tryRecover_runs (nslots S : Nat) (g : Geom) (hg : g.slotSize = S) (d : Dev) (h : Good d)
+    (hB : 0 < d.flash.block) (hdiv : S % d.flash.block = 0) (hS : 28 ≤ S) (hdev : nslots * S ≤ d.flash.size) :
+    (∃ extra, (extra = [] ∨ ((recoverDecision g (hdrsOf d.flash nslots S)).isSome ∧
+        extra = cancelOps S (indexed (hdrsOf (d.flash.applyAll (recoverOps g S d.flash.block (hdrsOf d.flash nslots S)))
+          nslots S)))) ∧
+      ((tryRecover nslots S).run d).2.flash =
+        d.flash.applyAll (recoverOps g S d.flash.block (hdrsOf d.flash nslots S) ++ extra)) ∧
+    ∀ k, ∃ extra, (extra = [] ∨ ((recoverDecision g (hdrsOf d.flash nslots S)).isSome ∧
+        extra = cancelOps S (indexed (hdrsOf (d.flash.applyAll (recoverOps g S d.flash.block (hdrsOf d.flash nslots S)))
+          nslots S)))) ∧
+      ((tryRecover nslots S).run (d.withCrash k)).2.flash =
+        d.flash.applyAll ((recoverOps g S d.flash.block (hdrsOf d.flash nslots S) ++ extra).take k) := by
+  constructor
+  · obtain ⟨extra, h1, h2⟩ := tryRecover_device nslots S g hg d (live_of_good h) hB hdiv hS hdev
+    exact ⟨extra, h1, by rw [h2, flash_outcome_good h]⟩
+  · intro k
+    obtain ⟨extra, h1, h2⟩ := tryRecover_device nslots S g hg (d.withCrash k) (live_withCrash h k) hB hdiv hS hdev
+    exact ⟨extra, h1, by rw [h2]; exact flash_outcome_crash d k () _⟩
+
+/-- **`check_runs`**: on a good device `check_and_mark_done` emits nothing (and fails) or exactly the two completion
+    marks (and returns); with a power loss armed before operation `k` the flash is the one after the first `k` of
+    the operations of that run. -/
+theorem check_runs (u : Upd) (S : Nat) (hfs : u.fw.size = S) (hps : u.par.size = S) (d : Dev) (h : Good d)
+    (hfin : u.fw.idx * S + 28 ≤ d.flash.size) (hpin : u.par.idx * S + 28 ≤ d.flash.size) :
+    (∃ ops, (ops = [] ∨ ops = completeOps S u.fw.idx u.par.idx) ∧
+      ((checkAndMarkDone u).run d).2.flash = d.flash.applyAll ops ∧
+      (∀ i, ((checkAndMarkDone u).run d).1 = .ok i → ops = completeOps S u.fw.idx u.par.idx)) ∧
+    ∀ k, ∃ ops, (ops = [] ∨ ops = completeOps S u.fw.idx u.par.idx) ∧
+      ((checkAndMarkDone u).run (d.withCrash k)).2.flash = d.flash.applyAll (ops.take k) := by
+  constructor
+  · obtain ⟨ops, h1, h2, h3⟩ := check_device u S hfs hps d (live_of_good h) hfin hpin
+    exact ⟨ops, h1, by rw [h2, flash_outcome_good h], h3⟩
+  · intro k
+    obtain ⟨ops, h1, h2, _⟩ := check_device u S hfs hps (d.withCrash k) (live_withCrash h k) hfin hpin
+    exact ⟨ops, h1, by rw [h2]; exact flash_outcome_crash d k () _⟩
+
+
+
+/-- all operations of `try_recover`'s remediation (or cancel-all) = the machine's `recover` -/
+theorem recover_full_refines {f : Flash} {g : Geom} {n S B : Nat} (hwf : Crash.WF f) (hB : f.block = B) (h28 : 28 ≤ B)
+    (hS : 28 ≤ S) (hdiv : S % B = 0) (hdev : n * S ≤ f.size) :
+    hdrsOf (f.applyAll (recoverOps g S B (hdrsOf f n S))) n S = (recover g (hdrsOf f n S)).2 := by
+  have hmB : S / B * B = S := by
+    have := Nat.div_add_mod S B; rw [Nat.mul_comm]; omega
+  have hm : 1 ≤ S / B := by
+    apply Nat.pos_of_ne_zero; intro e; rw [e] at hmB; omega
+  have := recover_refines (g := g) hwf hB h28 hS hdiv hdev (recoverOps g S B (hdrsOf f n S)).length
+  rw [List.take_length, (kappaRecover_bounds g S B (hdrsOf f n S) hm _ (Nat.le_refl _)).2 rfl, List.take_length] at this
+  exact this
+
+theorem cancel_full_refines {f : Flash} {n S : Nat} (hwf : Crash.WF f) (hS : 28 ≤ S) (hdev : n * S ≤ f.size) :
+    hdrsOf (f.applyAll (cancelOps S (indexed (hdrsOf f n S)))) n S = cancel (hdrsOf f n S) := by
+  have := cancel_refines (n := n) hwf hS hdev (cancelOps S (indexed (hdrsOf f n S))).length
+  rw [List.take_length, cancelOps_length] at this
+  rw [this]
+  unfold cancel
+  rw [show (cancelEffsOf (indexed (hdrsOf f n S))).length = (cancelEffs (hdrsOf f n S)).length from rfl,
+    List.take_length]
+
+/-- **`recover_complete_refines`**: the completed `try_recover` on a good device acts on the headers as the machine's
+    `recover` step — or, when it gave up after the remediation (see `tryRecover_runs`), as `recover` followed by the
+    machine's `cancel`. -/
+theorem recover_complete_refines (nslots S : Nat) (g : Geom) (hg : g.slotSize = S) (d : Dev) (h : Good d)
+    (hwf : Crash.WF d.flash) (h28 : 28 ≤ d.flash.block) (hdiv : S % d.flash.block = 0) (hS : 28 ≤ S)
+    (hdev : nslots * S ≤ d.flash.size) :
+    hdrsOf ((tryRecover nslots S).run d).2.flash nslots S = (recover g (hdrsOf d.flash nslots S)).2 ∨
+    ((recoverDecision g (hdrsOf d.flash nslots S)).isSome ∧
+      hdrsOf ((tryRecover nslots S).run d).2.flash nslots S = cancel (recover g (hdrsOf d.flash nslots S)).2) := by
+  obtain ⟨⟨extra, hex, hfl⟩, _⟩ := tryRecover_runs nslots S g hg d h (by omega) hdiv hS hdev
+  have hfull := recover_full_refines (g := g) (n := nslots) hwf rfl h28 hS hdiv hdev
+  rw [hfl, Ops.applyAll_append]
+  rcases hex with rfl | ⟨hsome, rfl⟩
+  · left
+    exact hfull
+  · right
+    refine ⟨hsome, ?_⟩
+    rw [cancel_full_refines (hwf.applyAll _) hS (by rw [applyAll_size]; exact hdev), hfull]
+
+/-- **`recover_crash_refines`**: with a power loss armed before operation `k` of `try_recover`, the headers on flash
+    are the ring's headers with a prefix of the machine's `recover` effects applied — or, in the give-up case, all of
+    them and then a prefix of the machine's `cancel` effects. -/
+theorem recover_crash_refines (nslots S : Nat) (g : Geom) (hg : g.slotSize = S) (d : Dev) (h : Good d)
+    (hwf : Crash.WF d.flash) (h28 : 28 ≤ d.flash.block) (hdiv : S % d.flash.block = 0) (hS : 28 ≤ S)
+    (hdev : nslots * S ≤ d.flash.size) (k : Nat) :
+    (∃ j, hdrsOf ((tryRecover nslots S).run (d.withCrash k)).2.flash nslots S =
+      applyAll (hdrsOf d.flash nslots S) ((recoverEffs g (hdrsOf d.flash nslots S)).2.take j)) ∨
+    ((recoverDecision g (hdrsOf d.flash nslots S)).isSome ∧
+      ∃ j, hdrsOf ((tryRecover nslots S).run (d.withCrash k)).2.flash nslots S =
+        applyAll (recover g (hdrsOf d.flash nslots S)).2 ((cancelEffs (recover g (hdrsOf d.flash nslots S)).2).take j)) := by
+  obtain ⟨_, hcr⟩ := tryRecover_runs nslots S g hg d h (by omega) hdiv hS hdev
+  obtain ⟨extra, hex, hfl⟩ := hcr k
+  have hfull := recover_full_refines (g := g) (n := nslots) hwf rfl h28 hS hdiv hdev
+  rw [hfl, List.take_append, Ops.applyAll_append]
+  by_cases hk : k ≤ (recoverOps g S d.flash.block (hdrsOf d.flash nslots S)).length
+  · left
+    rw [show k - (recoverOps g S d.flash.block (hdrsOf d.flash nslots S)).length = 0 by omega, List.take_zero]
+    exact ⟨_, recover_refines (g := g) hwf rfl h28 hS hdiv hdev k⟩
+  · rw [List.take_of_length_le (by omega)]
+    rcases hex with rfl | ⟨hsome, rfl⟩
+    · left
+      refine ⟨(recoverEffs g (hdrsOf d.flash nslots S)).2.length, ?_⟩
+      rw [List.take_nil, List.take_length]
+      exact hfull
+    · right
+      refine ⟨hsome, k - (recoverOps g S d.flash.block (hdrsOf d.flash nslots S)).length, ?_⟩
+      have := cancel_refines (n := nslots) (hwf.applyAll (recoverOps g S d.flash.block (hdrsOf d.flash nslots S))) hS
+        (by rw [applyAll_size]; exact hdev) (k - (recoverOps g S d.flash.block (hdrsOf d.flash nslots S)).length)
+      rw [this, hfull]
+
+/-- **`check_complete_refines`**: when `check_and_mark_done` returns on a good device whose session slots carry
+    in-progress headers, it acted on the headers as the machine's `complete`; with a power loss armed before operation
+    `k`, as a prefix of it (`k = 1`: `completeCrash`). -/
+theorem check_complete_refines (u : Upd) (nslots S : Nat) (hfs : u.fw.size = S) (hps : u.par.size = S) (d : Dev)
+    (h : Good d) (hwf : Crash.WF d.flash) (hS : 28 ≤ S) (hdev : nslots * S ≤ d.flash.size) {hf hp : Header}
+    (huf : Used (hdrsOf d.flash nslots S) u.fw.idx hf) (hup : Used (hdrsOf d.flash nslots S) u.par.idx hp)
+    (hne : u.fw.idx ≠ u.par.idx) (hef : hf.ext = Ext.inProgress) (hep : hp.ext = Ext.inProgress) :
+    ∃ es, completeEffs (hdrsOf d.flash nslots S) u.fw.idx u.par.idx = some es ∧
+      (∀ i, ((checkAndMarkDone u).run d).1 = .ok i →
+        hdrsOf ((checkAndMarkDone u).run d).2.flash nslots S = applyAll (hdrsOf d.flash nslots S) es) ∧
+      ∀ k, ∃ j, hdrsOf ((checkAndMarkDone u).run (d.withCrash k)).2.flash nslots S =
+        applyAll (hdrsOf d.flash nslots S) (es.take j) := by
+  have hfin : u.fw.idx * S + 28 ≤ d.flash.size := by
+    have := slot_in_dev hdev (used_hdrsOf.mp huf).1; omega
+  have hpin : u.par.idx * S + 28 ≤ d.flash.size := by
+    have := slot_in_dev hdev (used_hdrsOf.mp hup).1; omega
+  obtain ⟨⟨ops, _, hfl, hok⟩, hcr⟩ := check_runs u S hfs hps d h hfin hpin
+  obtain ⟨es, hes, _⟩ := complete_refines hwf hS hdev huf hup hne hef hep 0
+  have href : ∀ k, hdrsOf (d.flash.applyAll ((completeOps S u.fw.idx u.par.idx).take k)) nslots S =
+      applyAll (hdrsOf d.flash nslots S) (es.take k) := by
+    intro k
+    obtain ⟨es', hes', hr⟩ := complete_refines hwf hS hdev huf hup hne hef hep k
+    rw [hes] at hes'
+    simp only [Option.some.injEq] at hes'
+    rw [hes']; exact hr
+  refine ⟨es, hes, ?_, ?_⟩
+  · intro i hi
+    rw [hfl, hok i hi]
+    have := href (completeOps S u.fw.idx u.par.idx).length
+    rw [List.take_length] at this
+    rw [this, List.take_of_length_le (by rw [completeEffs_length hes]; exact Nat.le_refl _)]
+  · intro k
+    obtain ⟨ops', hops', hfl'⟩ := hcr k
+    rw [hfl']
+    rcases hops' with rfl | rfl
+    · exact ⟨0, by simp [Flash.applyAll, applyAll]⟩
+    · exact ⟨k, href k⟩
+
+
+
+/-! ### non-vacuity: a concrete device -/
+
+/-- the blank device of the example configuration: nothing armed, alive -/
+def blankDev : Dev := { flash := Flash.blank 4096 (4 * 20480) }
+
+theorem blankDev_good : Good blankDev := ⟨rfl, rfl, rfl⟩
+
+theorem blankDev_size : 4 * 20480 ≤ blankDev.flash.size := by
+  show 4 * 20480 ≤ (Flash.blank 4096 (4 * 20480)).size
+  simp [Flash.blank, Flash.size]
+
+/-- the hypotheses of `recover_complete_refines` / `recover_crash_refines` / `tryRecover_runs` hold on it -/
+example (k : Nat) :=
+  And.intro (recover_complete_refines 4 20480 (geomOf 20480 4 18) rfl blankDev blankDev_good (Crash.WF.blank _ _)
+      (by decide) (by decide) (by decide) blankDev_size)
+   (recover_crash_refines 4 20480 (geomOf 20480 4 18) rfl blankDev blankDev_good (Crash.WF.blank _ _)
+      (by decide) (by decide) (by decide) blankDev_size k)
+
+/-- the hypotheses of `check_runs` hold on it for the session `start_update` returns for the pair `(0, 1)` -/
+example := check_runs (C08.startUpd 20480 4 18 0 1) 20480 rfl rfl blankDev blankDev_good
+  (by have := blankDev_size; show 0 * 20480 + 28 ≤ _; omega) (by have := blankDev_size; show 1 * 20480 + 28 ≤ _; omega)
 
 
 end Fuota.RingRefine
